@@ -578,7 +578,7 @@ def run(ctx):
             ctx.evals += 1
             if m != ins + '/' + outs:
                 ctx.violation('model and wallet disagree about a stored transaction', {'kind': kind, 'hseed': hseed, 'nops': nops, 'op': 'ledger_tx', 'model': m, 'observed': ins + '/' + outs})
-    ctx.assumptions += ['the service layer is an in-process fake (push succeeds or fails as scripted); one network per wallet; wallets with two accounts pay to outside addresses only (an account is then a ledger of its own)',
+    ctx.assumptions += ['the service layer is an in-process fake (push succeeds or fails as scripted); one network per wallet; wallets with two accounts: one ledger machine per account, a payment from one account to a key of the other is an arriving output for the other',
                         'transaction ids and key ids are renamed to small integers before the comparison']
 
 
@@ -620,11 +620,15 @@ def run_accounts(ctx, only=None):
             kb = sorted((k.id, int(k.balance)) for k in w.keys(account_id=a) if k.balance)
             return 'ok/%d/%s/%s' % (int(bal), ','.join('%d-%d-%d' % x for x in ut), ','.join('%d-%d' % x for x in kb))
 
-        def record(a, op, text):
+        def record(a, op, text, other=None):
             sync()
             descr.append('account %d: %s' % (a, text))
             for b_ in accts:
-                ops[b_].append(op if b_ == a else 'bal')
+                mine = [op] if b_ == a else ((other or {}).get(b_) or ['bal'])
+                for o_ in mine[:-1]:
+                    ops[b_].append(o_)
+                    obs[b_].append(None)
+                ops[b_].append(mine[-1])
                 obs[b_].append((len(descr) - 1, observe(b_)))
 
         box['w'].get_key(account_id=accts[0]); box['w'].get_key(account_id=accts[1])
@@ -651,8 +655,12 @@ def run_accounts(ctx, only=None):
                 elif r < 0.8:
                     avail = sum(u['value'] for u in w.utxos(account_id=a))
                     if r < 0.65:
-                        t = w.send_to(EXT[wt], max(600, avail // rng.choice([2, 3, 10])), account_id=a, fee=rng.choice([500, 2000]), broadcast=True, min_confirms=0)
-                        what = 'send_to(account_id=%d)' % a
+                        # (to an outside address, or to a key of the OTHER account of this wallet: for that account an output arrives)
+                        other_acct = [b_ for b_ in accts if b_ != a][0]
+                        cross = rng.random() < 0.4 or (step == nops - 5 and not forced_sweep)
+                        dest = rng.choice(leaf_keys(other_acct)).address if cross else EXT[wt]
+                        t = w.send_to(dest, max(600, avail // rng.choice([2, 3, 10])), account_id=a, fee=rng.choice([500, 2000]), broadcast=True, min_confirms=0)
+                        what = 'send_to(%s, account_id=%d)' % ('a key of account %d' % other_acct if cross else 'outside', a)
                     else:
                         own = forced_sweep or rng.random() < 0.6          # consolidation: everything to one key of the same account
                         t = w.sweep(rng.choice(leaf_keys(a)).address if own else EXT[wt], account_id=a, fee=1000, broadcast=True, min_confirms=0)
@@ -661,10 +669,16 @@ def run_accounts(ctx, only=None):
                     ctx.count('accounts:' + what.split('(')[0] + (':default-account' if a == accts[0] else ':other-account'))
                     if t.pushed:
                         sync()
-                        a2k = {k.address: k.id for b_ in accts for k in w.keys(account_id=b_) if k.address}
+                        a2k = {k.address: k.id for k in w.keys(account_id=a) if k.address}
                         ins = ','.join('%d-%d-%d' % (tid(i.prev_txid.hex()), i.output_n_int, i.value) for i in t.inputs)
                         outs = ','.join('%d-%s' % (o.value, a2k.get(o.address, 'x')) for o in t.outputs)
-                        record(a, 'send.%d.%s.%s' % (tid(t.txid), ins, outs), what + ' -> pushed')
+                        # what the other account sees: an unconfirmed output arrives at one of its keys
+                        other = {}
+                        for b_ in accts:
+                            if b_ != a:
+                                b2k = {k.address: k.id for k in w.keys(account_id=b_) if k.address}
+                                other[b_] = ['add.%d.%d.%d.%d.0' % (b2k[o.address], o.value, tid(t.txid), o.output_n) for o in t.outputs if o.address in b2k]
+                        record(a, 'send.%d.%s.%s' % (tid(t.txid), ins, outs), what + ' -> pushed', other)
                     else:
                         record(a, 'bal', what + ' -> not pushed')
                 else:
